@@ -1722,13 +1722,13 @@ class tensor:
 
         if selfdims is None:
             selfdims = np.array([], dtype=int)
-        elif isinstance(selfdims, int):
+        elif isinstance(selfdims, (int, np.integer)):
             selfdims = np.array([selfdims])
         selfshape = tuple(np.array(self.shape)[selfdims])
 
         if otherdims is None:
             otherdims = selfdims.copy()
-        elif isinstance(otherdims, int):
+        elif isinstance(otherdims, (int, np.integer)):
             otherdims = np.array([otherdims])
         othershape = tuple(np.array(other.shape)[otherdims])
 
